@@ -20,8 +20,8 @@ proof fn internal_message_never_sent(e1: HttpError, e2: HttpError, rid: Seq<char
 
 /// dropshot's own HttpError converts to the `Dropshot` variant unchanged (its to_response returns Err(self)),
 /// so its internal and external messages stay available for logging and HttpError::into_response builds the reply
-pub proof fn http_error_converts_to_dropshot_variant(e: HttpError, b: Builder)
-    ensures e.to_response_spec(b) == Err::<Response, HttpError>(e) // @http_error_is_passed_through_structurally
+pub proof fn http_error_converts_to_dropshot_variant(e: HttpError, s: StatusCode, f: bool, h: Seq<(Seq<char>, Seq<char>)>, r: HttpHandlerResult)
+    ensures e.to_response_rel(s, f, h, r) == (r == Err::<Response, HttpError>(e)) // @http_error_is_passed_through_structurally
 {}
 
 proof fn sentinel_prelude_consistent()
